@@ -119,6 +119,16 @@ Theorem C20_const_of_set_repaired :
 Proof. exact const_set_repaired. Qed.
 Print Assumptions C20_const_of_set_repaired.
 
+(* REPAIRED (fixes F-14x, set literal nested in a const container, and F-14y, list nested in a const list): the const items
+   are generated (before: panic!("unexpected literal") / arrays of length 0) *)
+Theorem C20_const_nested_container_repaired :
+  const_value pf0 W_const_nested 0 = LOk (GList [GSet [GI64 1]; GSet []]) /\
+  const_value pf0 W_const_nested 1 = LOk (GMap [(GI32 1, GSet [GBytes [x61]])]) /\
+  const_value pf0 W_const_nested 2 = LOk (GList [GList [GI32 1]; GList [GI32 2]]) /\
+  const_value pf0 W_const_nested 3 = LOk (GList [GMap []; GMap [(GI32 1, GI32 2)]]).
+Proof. exact (proj2 const_nested_repaired). Qed.
+Print Assumptions C20_const_nested_container_repaired.
+
 (* REPAIRED (new arms): an integer at a set<double> element / map key is the nearest double; a string const at a
    `pilota.rust_type = "string"` field *)
 Theorem C20_missing_arms_repaired :
